@@ -137,8 +137,12 @@ func runC01(c *Ctx) {
 		es.Eval(f, nil)
 	}
 	examined := map[string]bool{}
+	e1Pre := map[string]bool{}
 	for _, o := range obs {
 		examined[o.Func+"|"+o.Pos+"|"+o.Kind] = true
+		if o.Kind == "libpre" && core.Status(o.Status) == core.Discharged {
+			e1Pre[o.Func+"|"+o.Pos] = true
+		}
 		if o.Kind == "panic" {
 			if f := byName[o.Func]; f != nil {
 				done := false
@@ -209,6 +213,26 @@ func runC01(c *Ctx) {
 			c.check(true, "C01.type-assert", ta.Parent(), construct, ta, "every error shape reaching the assertion has the asserted dynamic type")
 		}
 	}
+	if os.Getenv("C01_EXT") != "" {
+		ext := map[string]int{}
+		for _, f := range reachedFns {
+			for _, ci := range core.AllCalls(f) {
+				n := core.CalleeName(ci.Common())
+				if !strings.HasPrefix(n, core.ModPath) && !strings.HasPrefix(n, "(*"+core.ModPath) && !strings.HasPrefix(n, "("+core.ModPath) {
+					ext[n]++
+				}
+			}
+		}
+		var ks []string
+		for k := range ext {
+			ks = append(ks, k)
+		}
+		sort.Strings(ks)
+		for _, k := range ks {
+			println("EXT", k, ext[k])
+		}
+	}
+	c01LibTotal(c, reachedFns, e1Pre)
 	c01Loops(c, reachedFns)
 }
 
@@ -381,4 +405,118 @@ func isIntIndexable(t types.Type) bool {
 		return ok
 	}
 	return false
+}
+
+// ---- library calls ----
+
+// libTotalPrefixes: packages whose functions return normally for every
+// argument, except the ones listed in libPre.
+var libTotalPrefixes = []string{
+	"strings.", "bytes.", "unicode.", "unicode/utf8.", "unicode/utf16.", "strconv.", "net/netip.", "(net/netip.", "(*net/netip.",
+	"net.", "(net.", "(*net.", "net/url.", "(*net/url.", "(net/url.", "fmt.", "errors.", "math.", "math/bits.", "sort.", "slices.", "maps.", "cmp.",
+	"encoding/json.", "encoding/hex.", "encoding/binary.", "time.", "(time.", "(*time.", "sync.", "(*sync.", "sync/atomic.", "(*sync/atomic.",
+	"golang.org/x/net/idna.", "(*golang.org/x/net/idna.", "bufio.", "(*bufio.", "(*strings.Builder).", "(*strings.Reader).", "(*bytes.Buffer).", "(*bytes.Reader).",
+	"log.", "log/slog.", "(*log/slog.", "os.Getpid", "reflect.TypeOf", "runtime.Stack", "io.", "context.", "(*unicode.",
+}
+
+// libPre: library functions that panic on some arguments, with the check that
+// establishes the precondition at a call site ("" = always undecided).
+var libPre = map[string]string{
+	"(net/netip.Addr).As4":         "is4",
+	"(*strings.Builder).Grow":      "e1",
+	"(*bytes.Buffer).Grow":         "e1",
+	"(*bufio.Scanner).Buffer":      "before-scan",
+	"strings.Repeat":               "",
+	"bytes.Repeat":                 "",
+	"slices.Insert":                "",
+	"slices.Delete":                "",
+	"slices.Replace":               "",
+	"slices.Grow":                  "",
+	"slices.Repeat":                "",
+	"slices.Chunk":                 "",
+	"(*bytes.Buffer).Truncate":     "",
+	"(*bytes.Buffer).Next":         "",
+	"time.NewTicker":               "",
+	"time.Tick":                    "",
+	"(*sync.WaitGroup).Add":        "",
+	"(*sync.Mutex).Unlock":         "",
+	"(*sync.RWMutex).Unlock":       "",
+	"(*sync.RWMutex).RUnlock":      "",
+	"(net/netip.Addr).Prefix":      "total",
+	"(*bufio.Scanner).Split":       "before-scan",
+	"(*time.Timer).Reset":          "",
+	"(*time.Ticker).Reset":         "",
+	"encoding/binary.BigEndian":    "total",
+	"encoding/binary.LittleEndian": "total",
+}
+
+func c01LibTotal(c *Ctx, fns []*ssa.Function, e1Checked map[string]bool) {
+	seen := map[string]int{}
+	for _, f := range fns {
+		for _, ci := range core.AllCalls(f) {
+			cc := ci.Common()
+			if cc.IsInvoke() || cc.StaticCallee() == nil {
+				continue // interface methods and function values: total by their contract (assumption)
+			}
+			name := core.CalleeName(cc)
+			if strings.HasPrefix(name, "builtin.") || strings.Contains(name, core.ModPath) {
+				continue
+			}
+			base := name[strings.LastIndexAny(name, "./)")+1:]
+			how, listed := libPre[name]
+			if strings.HasPrefix(base, "Must") {
+				how, listed = "", true
+			}
+			if !listed {
+				total := false
+				for _, p := range libTotalPrefixes {
+					if strings.HasPrefix(name, p) {
+						total = true
+					}
+				}
+				if total {
+					seen[name]++
+					continue
+				}
+				c.undecided("C01.lib-total", f, "call of "+name, ci, "a library function outside the reviewed set: whether it returns normally for every argument is not known to this checker")
+				continue
+			}
+			what := "precondition of " + name
+			switch how {
+			case "total":
+				seen[name]++
+			case "is4":
+				ok := false
+				recv := cc.Args[0]
+				for _, g := range core.GuardsOf(ci) {
+					cond, truth := core.StripNot(g.Cond, g.Truth)
+					if gc, isCall := cond.(*ssa.Call); isCall && truth {
+						gn := core.CalleeName(&gc.Call)
+						if (gn == "(net/netip.Addr).Is4" || gn == "(net/netip.Addr).Is4In6") && (gc.Call.Args[0] == recv || sameLoad(gc.Call.Args[0], recv)) {
+							ok = true
+						}
+					}
+				}
+				c.check(ok, "C01.lib-total", f, what+": the address is IPv4 (dominating Is4()/Is4In6() test on the same value)", ci,
+					"netip.Addr.As4 panics for the zero Addr and for IPv6 addresses")
+			case "e1":
+				c.check(e1Checked[core.FuncName(f)+"|"+c.ipos(ci)], "C01.lib-total", f, what+": argument >= 0 (proved by E1, see C01.bounds libpre)", ci, "Grow panics on a negative count")
+			case "before-scan":
+				ok := !core.InLoop(ci)
+				for _, sc := range core.CallsTo(f, "(*bufio.Scanner).Scan") {
+					if !core.Dominates(ci, sc) {
+						ok = false
+					}
+				}
+				c.check(ok, "C01.lib-total", f, what+": configured before the first Scan", ci, "bufio.Scanner.Buffer/Split panic once scanning has started")
+			default:
+				c.undecided("C01.lib-total", f, what, ci, "this library function panics on some arguments and no rule establishes its precondition here")
+			}
+		}
+	}
+	n := 0
+	for _, k := range seen {
+		n += k
+	}
+	c.L.Record(core.Discharged, "C01.lib-total", "-", sprintf("%d calls of %d reviewed total library functions", n, len(seen)), "-", "strings/bytes/strconv/netip/net/url/fmt/errors/... return normally for every argument (trusted)")
 }
